@@ -2,6 +2,8 @@
 # Determinism self-test (DESIGN.md §6.1): the same seeds must give the same scenarios,
 # op logs, violations and statistics in separate processes and at several worker counts.
 #   ./selftest.sh [runs]      exit 0 = identical, 1 = divergence
+#   VERIF_DIGEST_FROM=29000 ./selftest.sh 30320   only the tail of the quick batch (C10: the
+#                             real-file-system stratum next to simulated histories)
 DIR="$(cd "$(dirname "$0")" && pwd)"
 RUNS="${1:-2000}"
 export VERIF_DIR="$DIR"
